@@ -19,8 +19,10 @@
 //!   RAW 7 x { n rows }    (towers t addr slots | appointments l 1 delay | pending l t | invalid l t |
 //!                          registration_receipts t slots start expiry sigcls | appointment_receipts l t sb 1 sigcls |
 //!                          misbehaving_proofs t l rec)
-//!   LOG n { t ep l cls ms }      requests the towers saw since the previous observation, in order
-//!        ep 0 register 1 add_appointment 2 other; cls = the reply class the tower gave
+//!   LOG n { t ep l cls ms v1 v2 v3 }   requests the towers saw since the previous observation, in order
+//!        ep 0 register 1 add_appointment 2 other; cls = the reply class the tower gave;
+//!        v1 v2 v3 = (available_slots, subscription_start, subscription_expiry) of a register reply that carries a
+//!        receipt, (available_slots, 0, 0) of an add_appointment reply that carries one, 0 0 0 otherwise
 use std::collections::HashMap;
 use std::io::Write;
 use std::path::{Path, PathBuf};
@@ -121,6 +123,7 @@ const R_BADSIG: u64 = 1;
 const R_NOTEXT: u64 = 2; // a valid receipt that does not extend the subscription
 const R_GARBAGE: u64 = 3;
 const R_APIERR: u64 = 4;
+const R_NOTEXT_SLOTS: u64 = 5; // a valid receipt with a later expiry but no more slots than the client knows
 const C_DOWN: u64 = 20; // not listening (connection refused) — never logged by the tower, used in scripts only
 
 struct LogEntry {
@@ -129,6 +132,7 @@ struct LogEntry {
     l: i64,
     cls: u64,
     ms: u64,
+    v: (u32, u32, u32),
 }
 
 struct TowerState {
@@ -240,13 +244,17 @@ async fn handle_conn(mut s: tokio::net::TcpStream, st: Arc<Mutex<TowerState>>, i
         if path == "/register" {
             let cls = g.reg;
             let user_id = serde_json::from_slice::<msgs::RegisterRequest>(body).ok().and_then(|r| UserId::from_slice(&r.user_id).ok());
-            g.log.push(LogEntry { t: id, ep: 0, l: -1, cls, ms });
+            let mut vals = (0, 0, 0);
             reply = Some(match (cls, user_id) {
-                (R_GOOD, Some(u)) | (R_BADSIG, Some(u)) | (R_NOTEXT, Some(u)) => {
+                (R_GOOD, Some(u)) | (R_BADSIG, Some(u)) | (R_NOTEXT, Some(u)) | (R_NOTEXT_SLOTS, Some(u)) => {
                     if cls == R_GOOD {
                         g.gen += 1;
                     }
-                    let (slots, start, expiry) = sub_values(g.gen);
+                    let (slots, start, mut expiry) = sub_values(g.gen);
+                    if cls == R_NOTEXT_SLOTS {
+                        expiry += 50;
+                    }
+                    vals = (slots, start, expiry);
                     let mut r = RegistrationReceipt::new(u, slots, start, expiry);
                     r.sign(if cls == R_BADSIG { &other_sk } else { &tower_sk });
                     serde_json::to_string(&msgs::RegisterResponse {
@@ -261,12 +269,14 @@ async fn handle_conn(mut s: tokio::net::TcpStream, st: Arc<Mutex<TowerState>>, i
                 (R_APIERR, _) => json!({"error": "no slots", "error_code": 65}).to_string(),
                 _ => "<html>this is not json</html>".to_string(),
             });
+            g.log.push(LogEntry { t: id, ep: 0, l: -1, cls, ms, v: vals });
         } else if path == "/add_appointment" {
             let cls = g.add;
             let req = serde_json::from_slice::<msgs::AddAppointmentRequest>(body).ok();
             let loc = req.as_ref().and_then(|r| r.appointment.as_ref()).map(|a| loc_of_bytes(&a.locator)).unwrap_or(-2);
-            g.log.push(LogEntry { t: id, ep: 1, l: loc, cls, ms });
             let (slots, _start, expiry) = sub_values(g.gen);
+            let has_receipt = matches!(cls, A_ACCEPT | A_WRONGKEY | A_BADSIG);
+            g.log.push(LogEntry { t: id, ep: 1, l: loc, cls, ms, v: (if has_receipt { slots } else { 0 }, 0, 0) });
             reply = match cls {
                 A_ACCEPT | A_WRONGKEY | A_BADSIG => {
                     let req = req.unwrap();
@@ -296,7 +306,7 @@ async fn handle_conn(mut s: tokio::net::TcpStream, st: Arc<Mutex<TowerState>>, i
                 _ => None,
             };
         } else {
-            g.log.push(LogEntry { t: id, ep: 2, l: -1, cls: 0, ms });
+            g.log.push(LogEntry { t: id, ep: 2, l: -1, cls: 0, ms, v: (0, 0, 0) });
             reply = Some("{}".to_string());
         }
     }
@@ -723,7 +733,7 @@ impl Runner {
         entries.sort_by_key(|e| e.ms);
         l.tok("LOG").tok(entries.len());
         for e in entries {
-            l.tok(e.t).tok(e.ep).tok(e.l).tok(e.cls).tok(e.ms);
+            l.tok(e.t).tok(e.ep).tok(e.l).tok(e.cls).tok(e.ms).tok(e.v.0).tok(e.v.1).tok(e.v.2);
         }
     }
 
@@ -739,6 +749,8 @@ impl Runner {
             }
         };
         let _ = conn.busy_timeout(Duration::from_millis(2000));
+        // one read transaction: the seven tables are one consistent snapshot
+        let _ = conn.execute_batch("BEGIN");
         let tables = ["towers", "appointments", "pending_appointments", "invalid_appointments", "registration_receipts", "appointment_receipts", "misbehaving_proofs"];
         for name in tables {
             let mut out: Vec<Vec<i64>> = Vec::new();
